@@ -213,6 +213,23 @@ def find_fn(src, name, within=None, masked=None, nth=1):
     return _attr_start(src, masked, s), s, ob, cb
 
 
+
+def find_macro(src, name, masked=None):
+    """`macro_rules! NAME { .. }` (or `( .. );` / `[ .. ];`).  Returns (start_with_attrs, start, end_exclusive)."""
+    masked = masked if masked is not None else mask(src)
+    for m in re.finditer(r'(?<![A-Za-z0-9_])macro_rules!\s*' + re.escape(name) + r'\b', masked):
+        k = m.end()
+        while k < len(masked) and masked[k].isspace():
+            k += 1
+        if k < len(masked) and masked[k] in '{([':
+            e = match_close(masked, k) + 1
+            while e < len(masked) and masked[e] in ' \t':
+                e += 1
+            if e < len(masked) and masked[e] == ';':
+                e += 1
+            return _attr_start(src, masked, m.start()), m.start(), e
+    raise AnchorLost('macro %s not found' % name)
+
 def find_type_item(src, kind, name, masked=None):
     """struct / enum / const / type / static at depth 0.  Returns (start_with_attrs, start, end_exclusive)."""
     masked = masked if masked is not None else mask(src)
